@@ -1055,14 +1055,18 @@ func (a *panicAudit) loopBound(fn *ssa.Function, at *ssa.BasicBlock, base, idx s
 			continue
 		}
 		bo, ok := iff.Cond.(*ssa.BinOp)
-		if !ok || bo.Op != token.LSS {
+		if !ok || (bo.Op != token.LSS && bo.Op != token.GTR) {
 			continue
 		}
-		lv, k := split(bo.X)
+		cmpX, cmpY := bo.X, bo.Y
+		if bo.Op == token.GTR {
+			cmpX, cmpY = bo.Y, bo.X // len(x) > i+k is i+k < len(x)
+		}
+		lv, k := split(cmpX)
 		if lv != ssa.Value(phi) || k < c {
 			continue
 		}
-		lc, ok := bo.Y.(*ssa.Call)
+		lc, ok := cmpY.(*ssa.Call)
 		if !ok {
 			continue
 		}
